@@ -100,8 +100,10 @@ def result_of(solver, solved, exc):
             "values": {"%s.%s" % (sec, k): sol[sec][k] for sec in sol.sections() for k in sol[sec]},
             "forms": sorted(solver.forms.keys()),
             "unimpl": sorted(set(solver.unimplemented_fields())),
-            "missing": {k: sorted(v) for k, v in solver.unmet_input_dependencies().items()},
-            "blocked": {k: sorted(v) for k, v in solver.unmet_field_dependencies().items()}}
+            # diagnostics are compared as SETS: when a form is first discovered through one of its required lines that
+            # line is queued twice, so the multiplicity of a waiter (never its presence) depends on the attempt order
+            "missing": {k: sorted(set(v)) for k, v in solver.unmet_input_dependencies().items()},
+            "blocked": {k: sorted(set(v)) for k, v in solver.unmet_field_dependencies().items()}}
 
 
 # ---------------------------------------------------------------------------------------------
